@@ -17,9 +17,10 @@ RULES = {
     'R4': 'poll tombstones: del per slot state; dispatch never revives a DELETED entry; negative result -> tombstone; tombstones recycled only in qb_poll_fds_usage_check_',
     'R5': 'in every driver poll implementation add_to_jobs is unreachable for DELETED / JOBLIST / stale-handle entries',
     'R6': 'signal handler only writes to the pipe; every delivery is cloned with cloned_from; after signal_del no queued clone remains (scans continue past a match, removal-safe) or at most one clone is ever queued',
+    'R8': 'handle check values: a check computed from the slot\'s own previous check (generation counter) must never be reset by the invalidation stores; otherwise it comes from random()',
     'R7': 'qb_loop_run re-tests stop_requested after every level run',
 }
-FLOORS = {'R1': 4, 'R2': 5, 'R3': 12, 'R4': 9, 'R5': 3, 'R6': 5, 'R7': 1}
+FLOORS = {'R1': 4, 'R2': 5, 'R3': 12, 'R4': 9, 'R5': 3, 'R6': 5, 'R7': 1, 'R8': 2}
 
 
 def run(ctx):
@@ -32,6 +33,7 @@ def run(ctx):
     r5(ctx, st)
     r6(ctx)
     r7(ctx)
+    r8(ctx)
 
 
 def r1(ctx):
@@ -398,3 +400,28 @@ def r7(ctx):
                                 edge_filter=stop_tested)
         ctx.check('R7', 'stop-retested-after-level', not hits, rl, 'stop_requested is tested after every level run before more work is started',
                   'after a level run more work can start without stop_requested being tested')
+
+
+def r8(ctx):
+    prog = ctx.prog
+    for rec in ('qb_loop_timer', 'qb_poll_entry'):
+        ws = prog.writers('check', rec)
+        if not ws:
+            raise AnalysisBroken('%s.check has no writers' % rec)
+        resets = [(g, ev) for (g, ev) in ws if cval(unwrap(ev.rhs)) is not None]
+        fresh = [(g, ev) for (g, ev) in ws if cval(unwrap(ev.rhs)) is None]
+        if not fresh:
+            raise AnalysisBroken('%s.check is never given a fresh value' % rec)
+        for (g, ev) in fresh:
+            selfref = any(n.get('k') == 'mem' and n['f'] == 'check' and n.get('rec') == rec for n in walk(ev.rhs)) or ev.d['op'] in ('++', '+=')
+            rnd = any(n.get('k') == 'call' and callee_of(n) in ('random', 'rand', 'arc4random', 'lrand48') for n in walk(ev.rhs or {}))
+            if selfref:
+                ok = not resets
+                ctx.check('R8', '%s.check:generation-never-reset' % rec, ok, ev,
+                          'the generation counter is never reset',
+                          'the new check is computed from the slot\'s previous check, but %s resets that field to %s: after a slot fired/was deleted its next '
+                          'user gets the same handle value again (a stale handle deletes an unrelated registration)' % (
+                              resets[0][0].name if resets else '', estr(resets[0][1].rhs) if resets else ''))
+            else:
+                ctx.check('R8', '%s.check:fresh-value-source' % rec, rnd, ev, 'a new handle check comes from the PRNG',
+                          'a new handle check is %s: neither random nor a never-reset generation counter' % estr(ev.rhs))
